@@ -482,12 +482,31 @@ func c05Extra(c *Ctx) {
 	}
 	// validateSpec: external validator's verdict is heeded
 	if fn := c.U.Func("cdi", "validateSpec"); fn != nil {
-		succ, _ := c.returnsByOutcome(fn)
-		ok := len(succ) > 0
-		for _, s := range succ {
-			g := strings.Join(s.guards, " & ")
-			if g != "nil(global:specValidator)" && g != "nil(err:interface method Validate) & nonnil(global:specValidator)" {
-				ok = false
+		// (a) the installed validator's error is returned on every path; (b) with a validator
+		// installed no path reaches a success return without having consulted it
+		ok := false
+		var vcall ssa.CallInstruction
+		for _, call := range ir.Calls(fn) {
+			if call.Common().IsInvoke() && call.Common().Method.Name() == "Validate" && strings.HasSuffix(c.valueDesc(call.Common().Value), "specValidator") {
+				vcall = call
+			}
+		}
+		if vcall != nil && c.errflow(fn, vcall) == "" {
+			ok = true
+			for _, iff := range ir.Ifs(fn) {
+				tv, nilSucc, isNil := ir.NilTest(iff)
+				if !isNil || !strings.HasSuffix(c.valueDesc(tv), "specValidator") {
+					continue
+				}
+				nonNil := ir.Edge{From: iff.Block(), Succ: 1 - nilSucc}
+				for _, ret := range ir.NormalReturns(fn) {
+					if ir.DefiniteNil(ir.ReturnResult(ret, 0)) == ir.NonNil {
+						continue
+					}
+					if ir.CanReach(fn, ir.PathQuery{FromEdge: &nonNil, To: ret, Stop: func(in ssa.Instruction) bool { return in == vcall.(ssa.Instruction) }}) {
+						ok = false
+					}
+				}
 			}
 		}
 		r.Check("C05.2", "success:validateSpec", ok, c.U.Pos(fn.Pos()), "validateSpec succeeds only without a validator or when the validator accepts")
@@ -535,18 +554,24 @@ func c05Extra(c *Ctx) {
 		}
 		r.Check("C05.2", "annotations-keys-and-size", loop != nil && loop.Complete && keyChecked && sizeChecked && joined, c.U.Pos(fn.Pos()), "every annotation key is checked as a qualified name, the total size is checked, all findings are joined into the result")
 	}
-	if fn := c.fn("C05.2", "validation", "validateSpecAnnotations"); fn != nil {
-		ok := false
-		for _, call := range c.callsTo(fn, false, "k8s", "ValidateAnnotations") {
-			if call.Common().Args[0] == ssa.Value(fn.Params[1]) {
-				for _, ret := range ir.NormalReturns(fn) {
-					if ret.Results[0] == call.Value() {
-						ok = true
+	// (validateSpecAnnotations, if it exists, is expanded into ValidateSpecAnnotations before analysis)
+	if fn := c.fn("C05.2", "validation", "ValidateSpecAnnotations"); fn != nil {
+		calls := c.callsTo(fn, false, "k8s", "ValidateAnnotations")
+		ok := len(calls) > 0
+		for _, call := range calls {
+			returned := false
+			for _, ret := range ir.NormalReturns(fn) {
+				for _, lv := range phiLeaves(ir.ReturnResult(ret, 0)) {
+					if lv == call.Value() {
+						returned = true
 					}
 				}
 			}
+			if !returned {
+				ok = false
+			}
 		}
-		r.Check("C05.2", "annotations-delegation", ok, c.U.Pos(fn.Pos()), "validateSpecAnnotations returns the verdict of k8s.ValidateAnnotations on its map")
+		r.Check("C05.2", "annotations-delegation", ok, c.U.Pos(fn.Pos()), fmt.Sprintf("ValidateSpecAnnotations returns the verdict of k8s.ValidateAnnotations on the map it was given (%d call(s))", len(calls)))
 	}
 	// nil elements (C05.4): the failure exits inside ContainerEdits.Validate
 	if fn := c.U.Func("cdi", "(*ContainerEdits).Validate"); fn != nil {
